@@ -24,7 +24,7 @@ RULE = (
 )
 ASSUMPTIONS = c05.ASSUMPTIONS
 TRUSTED = []
-NOT_THEOREMS = ['record-level premise of Props.C06.main (every typed record parsed from x renders and is record-stable: C01 stability) — discharged for every text in Props.C06.main_int_lit (files of integer / literal registers), main_regs_F, main_regs_FE (also floats in F and E notation) and main_regs_all (dates as well) and derivable from the per-field laws in general (recStable_of_laws); per case only for floats outside the ranges of the C01 float laws']
+NOT_THEOREMS = ['record-level premise of Props.C06.main (every typed record parsed from x renders and is record-stable: C01 stability) — discharged for every text in Props.C06.main_int_lit (files of integer / literal registers), main_regs_F, main_regs_FE (also floats in F and E notation) and main_regs_all (dates as well) and derivable from the per-field laws in general (recStable_of_laws) — the float ranges of those theorems now cover every finite double in normal form, in either notation (Props.C01.floatFB_all)']
 EXHAUSTIVE = {"quick": False, "thorough": False}
 
 
